@@ -397,6 +397,16 @@ func Run(r *fw.Run) {
 			}
 		}
 	}
+	// counts: archives with many entries, all valid, and with a colliding or badly prefixed one at the end
+	for _, n := range []int{9, 17, 63, 64, 65, 129, 1000} {
+		var es []ent
+		for i := 0; i < n; i++ {
+			es = append(es, mk(prefixes[0]+fmt.Sprintf("d%d/f%04d.go", i%5, i)))
+		}
+		jobs = append(jobs, job{goodMod, goodVers, append([]ent{}, es...)})
+		jobs = append(jobs, job{goodMod, goodVers, append(append([]ent{}, es...), mk(prefixes[0]+"D0/F0000.GO"))})
+		jobs = append(jobs, job{goodMod, goodVers, append(append([]ent{}, es...), mk(prefixes[1]+"x.go"))})
+	}
 	// mode bits in entry headers
 	for _, md := range []string{"dir", "symlink", "exec", "device"} {
 		for _, n := range []string{"a.go", "go.mod", "sub/x.go", "d/", "LICENSE"} {
